@@ -382,7 +382,13 @@ func runRcpt(r *common.Run, ids []int, sched []string, class string) {
 		}
 		rr.act(a)
 	}
-	obs := rr.epilogue()
+	var obs string
+	if len(rr.problems) > 0 {
+		r.Hist["problem"]++
+		obs = "aborted"
+	} else {
+		obs = rr.epilogue()
+	}
 	if len(rr.problems) > 0 {
 		obs += " PROBLEM:" + strings.ReplaceAll(strings.Join(rr.problems, ";"), " ", "_")
 	}
